@@ -10,8 +10,9 @@ candidate ids the RNG yields, AlreadyExists), `Collection.Update` (mask validati
 merge under the update mask), `Collection.Delete` (NotFound / allow-missing), `Value.Set` (replace, with
 the InterceptAfter hook of changeActiveMode).
 
-Abstractions (see props/C19.json): an `ElectricMode` is reduced to the fields `id, title, normal,
-start_time` (whole seconds); update masks range over those four paths plus an unknown path; the clock
+Abstractions (see props/C19.json): an `ElectricMode` has the fields `id, title, description, voltage (whole
+volts), start_time (whole seconds), segments (each reduced to a whole-number magnitude), normal`; update
+masks range over those seven paths plus an unknown path; the clock
 value read by an operation is a parameter of the operation; id generation consumes the list of
 candidate ids the injected RNG would produce.
 -/
@@ -37,13 +38,22 @@ structure Mode where
   title : String
   normal : Bool
   start : Option Nat
+  description : String := ""
+  /-- volts, whole numbers (0 = absent) -/
+  voltage : Nat := 0
+  /-- the repeated `segments` field, each segment reduced to its magnitude (whole numbers) -/
+  segments : List Nat := []
   deriving DecidableEq, Repr
 
+/-- a mode with only the four core fields set -/
+def Mode.mk4 (id title : String) (normal : Bool) (start : Option Nat) : Mode :=
+  { id := id, title := title, normal := normal, start := start }
+
 /-- `&traits.ElectricMode{}` -/
-def Mode.blank : Mode := ⟨"", "", false, none⟩
+def Mode.blank : Mode := Mode.mk4 "" "" false none
 
 inductive Field where
-  | id | title | normal | start
+  | id | title | normal | start | description | voltage | segments
   deriving DecidableEq, Repr
 
 /-- An update mask: the known paths it lists, and whether it also mentions an unknown path. -/
@@ -96,14 +106,20 @@ def normalMode (s : St) : Option Mode := s.modes.find? (fun x => x.normal)
 def genId (s : St) (cands : List String) : Option String :=
   (cands.take 10).find? (fun c => c ≠ "" ∧ (find s c).isNone)
 
-/-- `FieldUpdater.Merge(dst, src)` on the four modelled fields. -/
+/-- `FieldUpdater.Merge(dst, src)` on the modelled fields. -/
 def mergeMode (dst src : Mode) : Option Mask → Mode
   | none => src
   | some mask =>
     { id := if Field.id ∈ mask.paths then src.id else dst.id
       title := if Field.title ∈ mask.paths then src.title else dst.title
       normal := if Field.normal ∈ mask.paths then src.normal else dst.normal
-      start := if Field.start ∈ mask.paths then src.start else dst.start }
+      start := if Field.start ∈ mask.paths then src.start else dst.start
+      description := if Field.description ∈ mask.paths then src.description else dst.description
+      voltage := if Field.voltage ∈ mask.paths then src.voltage else dst.voltage
+      -- proto.Merge APPENDS a repeated field; pruneEmpty clears it when the source has none
+      segments := if Field.segments ∈ mask.paths then
+          (if src.segments = [] then [] else dst.segments ++ src.segments)
+        else dst.segments }
 
 /-- does an update under this mask write the `normal` field? (`writesField`) -/
 def writesNormal : Option Mask → Bool
